@@ -28,7 +28,7 @@ def run(ck, tier):
     _read(ck, p, byk)
     _append(ck, p, byk)
     n = serde_audit.audit(ck, p, "R-C19-serde", "harper_stats::record::Record", "Record")
-    ck.floor("R-C19-serde", "ADTs in the serde graph of Record", n, 15)
+    ck.floor("R-C19-serde", "ADTs in the serde graph of Record", n, 9)
     _count(ck, p, byk)
 
 
